@@ -350,7 +350,7 @@ func (e *Encoder) useLemma(name string) {
 	}
 	e.axiomsIn[name] = true
 	// lemmas are kept apart from the straight-line encoding: each obligation is tried without and with them
-	e.lemmaLines = append(e.lemmaLines, "; lemma "+name, "(assert "+lm.Formula+")")
+	e.lemmaLines = append(e.lemmaLines, "; lemma "+name, "(assert "+lm.axiomForm()+")")
 	if lm.Axiom {
 		e.note("axiom (assumed, not proved): " + name)
 	}
